@@ -248,6 +248,124 @@ def items_text(items):
     return ' '.join(x for x in out if x)
 
 
+def cond_facts(c, pos=None, neg=None):
+    """atomic conditions that must hold (pos) / must not hold (neg) when condition c is true"""
+    if pos is None:
+        pos, neg = [], []
+    if c[0] == 'and':
+        for x in c[1]:
+            cond_facts(x, pos, neg)
+    elif c[0] == 'not':
+        inner = c[1]
+        if inner[0] == 'not':
+            cond_facts(inner[1], pos, neg)
+        elif inner[0] == 'alt':
+            flip = lambda b: FALSE if b == TRUE else TRUE if b == FALSE else ('not', b)
+            cond_facts(('alt', [(a, flip(b)) for a, b in inner[1]]), pos, neg)
+        elif inner[0] == 'or':
+            for x in inner[1]:
+                neg.append(x)
+        elif inner[0] not in ('and', 'alt'):
+            neg.append(inner)
+    elif c[0] == 'alt':
+        live = [(i, a, b) for i, (a, b) in enumerate(c[1]) if b != FALSE]
+        if len(live) == 1:
+            i, a, b = live[0]
+            for a2, _ in c[1][:i]:
+                if a2 != TRUE:
+                    cond_facts(('not', a2), pos, neg)
+            if a != TRUE:
+                cond_facts(a, pos, neg)
+            if b != TRUE:
+                cond_facts(b, pos, neg)
+    elif c not in (TRUE, FALSE):
+        pos.append(c)
+    return pos, neg
+
+
+def cond_under(c, pos, neg, depth=0):
+    """truth of condition c under known facts: True / False / None (unknown)"""
+    if c == TRUE:
+        return True
+    if c == FALSE:
+        return False
+    if depth > 30:
+        return None
+    if any(c == f for f in pos):
+        return True
+    if any(c == f for f in neg):
+        return False
+    k = c[0]
+    if k == 'not':
+        r = cond_under(c[1], pos, neg, depth + 1)
+        return None if r is None else not r
+    if k == 'and':
+        rs = [cond_under(x, pos, neg, depth + 1) for x in c[1]]
+        if any(r is False for r in rs):
+            return False
+        return True if all(r is True for r in rs) else None
+    if k == 'or':
+        rs = [cond_under(x, pos, neg, depth + 1) for x in c[1]]
+        if any(r is True for r in rs):
+            return True
+        return False if all(r is False for r in rs) else None
+    if k == 'alt':
+        for a, b in c[1]:
+            ra = cond_under(a, pos, neg, depth + 1)
+            if ra is True:
+                return cond_under(b, pos, neg, depth + 1)
+            if ra is None:
+                return None
+        return None
+    if k == 'is':
+        # a value has exactly one variant
+        for f in pos:
+            if f[0] == 'is' and f[1] == c[1] and f[2] != c[2]:
+                return False
+    return None
+
+
+def prune(term, pos, neg, memo=None, depth=0):
+    """simplify conditional values under known facts"""
+    if not pos and not neg:
+        return term
+    if memo is None:
+        memo = {}
+    if not isinstance(term, tuple) or not term or depth > 60:
+        return term
+    if id(term) in memo:
+        return memo[id(term)]
+    k = term[0]
+    if k in ('closure', 'tmpl', 'star', 'elem', 'param', 'lit', 'path'):
+        r = term
+    elif k == 'alt':
+        arms = []
+        r = None
+        for c, v in term[1]:
+            truth = cond_under(c, pos, neg)
+            if truth is True:
+                arms.append((TRUE, prune(v, pos, neg, memo, depth + 1)))
+                break
+            if truth is False:
+                continue
+            arms.append((c, prune(v, pos, neg, memo, depth + 1)))
+            if c == TRUE:
+                break
+        if len(arms) == 1 and arms[0][0] == TRUE:
+            r = arms[0][1]
+        elif not arms:
+            r = term
+        else:
+            r = ('alt', arms)
+    elif isinstance(k, str):
+        r = tuple(prune(x, pos, neg, memo, depth + 1) if isinstance(x, tuple) else
+                  ([prune(y, pos, neg, memo, depth + 1) if isinstance(y, tuple) else y for y in x] if isinstance(x, list) else x) for x in term)
+    else:
+        r = tuple(prune(x, pos, neg, memo, depth + 1) if isinstance(x, tuple) else x for x in term)
+    memo[id(term)] = r
+    return r
+
+
 class Env:
     """lexically scoped environment: `let` defines in the innermost scope, mutation of an existing local writes through to
     the scope that defines it (so effects inside `if`/`match`/loop bodies survive the block)"""
@@ -422,6 +540,10 @@ class Interp:
             return conds[0] if len(conds) == 1 else ('and', conds)
         if k in ('PTuple', 'PSlice'):
             conds = []
+            if scrut[0] == 'elem':
+                body = self.elem_body(scrut)
+                if body is not None and body[0] == 'tuple':
+                    scrut = body
             for i, e in enumerate(pat['elems']):
                 comp = scrut[1][i] if scrut[0] == 'tuple' and i < len(scrut[1]) else ('tf', scrut, i)
                 c = self.bind(e, comp, env)
@@ -568,9 +690,36 @@ class Interp:
         b = self.expr(e['base'], env)
         return self.field(b, e['member'])
 
+    def elem_body(self, el):
+        """the value an element of a pipeline equals: for an element of map(...)/filter_map(...) results (possibly sorted or
+        de-duplicated afterwards, possibly flattened) the body of the producing iteration, with its loop variables standing for
+        the iteration that produced this element"""
+        src = el[2]
+        while src[0] == 'reorder':
+            src = src[1]
+        if src[0] != 'star':
+            return None
+        body = src[3]
+        if src[5]:
+            inner = body
+            while inner[0] == 'reorder':
+                inner = inner[1]
+            if inner[0] == 'star':
+                return inner[3]
+            return None
+        if body == ('elem', src[2], src[1]):
+            return None
+        return body
+
     def field(self, b, name):
         if b[0] == 'struct' and name in b[2]:
             return b[2][name]
+        if b[0] == 'elem':
+            body = self.elem_body(b)
+            if body is not None and body[0] in ('struct', 'tuple', 'alt'):
+                r = self.field(body, name)
+                if r[0] not in ('f', 'tf') or r[1] != body:
+                    return r
         if name.isdigit():
             if b[0] == 'tuple' and int(name) < len(b[1]):
                 return b[1][int(name)]
@@ -628,7 +777,10 @@ class Interp:
         # everything after `?` runs only when it succeeded
         fr['conds'].append(ok)
         fr.setdefault('try_conds', 0)
-        return v[2] if v[0] == 'opt' else ('unwrap', v)
+        if v[0] == 'opt':
+            pos, neg = cond_facts(ok)
+            return prune(v[2], pos, neg)
+        return ('unwrap', v)
 
     def e_If(self, e, env, **kw):
         env2 = env.child()
@@ -914,7 +1066,7 @@ class Interp:
             if isinstance(x, list):
                 return [go(y) for y in x]
             if isinstance(x, dict):
-                return x
+                return {k: go(v) for k, v in x.items()}
             return x
         return go(t)
 
@@ -1088,6 +1240,8 @@ class Interp:
             c, v = self.as_opt(r)
             if c is None:
                 c, v = ('t', ('is_some', r)), ('unwrap', r)
+            pos, neg = cond_facts(c)
+            v = prune(v, pos, neg)
             return ('star', src, eid, v, conds + [c], flat)
         if m == 'flat_map':
             return ('star', src, eid, r, conds, True)
